@@ -1,29 +1,92 @@
 (* C09 -- session termination (safety clauses).
 
-   Model: Model/TcpclSess.v.
+   Model: Model/TcpclSess.v.  All theorems hold for every configuration and
+   every operation list (arbitrary received octets included).
 
-   Proved so far:
-     C09_closed_is_final   once the socket is closed, no operation changes
-                           anything but the clock.
+   C09_one_term          at most one SESS_TERM is ever sent, and [in_term] says
+                         whether one was;
+   C09_term_flags        in one operation: a SESS_TERM sent while handling
+                         received data carries the REPLY flag (flags = 1); one
+                         sent by terminate() (OTerm r) has flags 0 and reason r;
+                         one sent by the idle timeout has flags 0 and reason 1;
+                         no other operation sends one;
+   C09_no_new_transfer_partial / _refuted
+                         no START segment follows the SESS_TERM -- FALSE
+                         unconditionally (segment size 0: the code repeats empty
+                         START segments for ever), proved when the segment size
+                         in use is positive (see C04.v);
+   C09_unstarted_reported when a SESS_TERM is handled in session, the queue of
+                         not-yet-started transfers is emptied and each of them
+                         gets SigSendFinished [id; 0; "terminating"];
+   C09_closed_is_final   once the socket is closed, no operation changes
+                         anything but the clock.
 
-   NOT YET PROVED (in progress): C09_one_term (at most one SESS_TERM; the one
-   answering a received SESS_TERM carries REPLY, the one from terminate() or
-   the idle timeout does not), C09_no_new_transfer (no START segment after
-   SESS_TERM; needs a positive negotiated segment size, see C04.v),
-   C09_unstarted_reported (transfers still queued when a SESS_TERM is handled
-   are reported finished with result "terminating"). *)
+   NOT YET PROVED: the lifting of C09_unstarted_reported to whole runs (every
+   queued transfer id is still in tx_map or has a SigSendFinished in the trace). *)
 From Coq Require Import List NArith Bool.
 From RecordUpdate Require Import RecordSet.
 Import ListNotations RecordSetNotations.
 From DTN Require Import Lib.Bytes Model.TcpclMsg Model.TcpclSess Proofs.TcpclSessBasics Proofs.TcpclSentProofs.
 Local Open Scope N_scope.
 
+Theorem C09_one_term : forall (c : cfg) (ops : list op),
+  let s := run c ops in
+  (length (filter (fun f => match f with FMsg (MSessTerm _ _) => true | _ => false end) (sent s)) <= 1)%nat
+  /\ (in_term s = true <-> exists fl r, In (FMsg (MSessTerm fl r)) (sent s)).
+Proof. exact sess_term_once. Qed.
+Print Assumptions C09_one_term.
+
+Theorem C09_term_flags : forall (s : ep) (o : op),
+  exists suf, sent (step s o) = sent s ++ suf
+  /\ Forall (fun f => match f with
+                      | FMsg (MSessTerm fl r) =>
+                          match o with
+                          | ORx _ => fl = 1
+                          | OTerm r' => fl = 0 /\ r = r'
+                          | OFireIdle => fl = 0 /\ r = 1
+                          | _ => False
+                          end
+                      | _ => True
+                      end) suf.
+Proof. exact term_flags. Qed.
+Print Assumptions C09_term_flags.
+
+Theorem C09_no_new_transfer_partial : forall (c : cfg) (ops : list op),
+  (forall k, let s := run c (firstn k ops) in in_sess s = true -> 0 < seg_size s) ->
+  forall pre fl r post, sent (run c ops) = pre ++ FMsg (MSessTerm fl r) :: post ->
+  Forall (fun f => match f with FMsg (MXferSeg flags _ _ _) => has_start flags = false | _ => True end) post.
+Proof. exact no_start_after_term_partial. Qed.
+Print Assumptions C09_no_new_transfer_partial.
+
+Theorem C09_no_new_transfer_refuted :
+  exists c ops pre fl r post, sent (run c ops) = pre ++ FMsg (MSessTerm fl r) :: post
+    /\ ~ Forall (fun f => match f with FMsg (MXferSeg flags _ _ _) => has_start flags = false | _ => True end) post.
+Proof. exact no_start_after_term_refuted. Qed.
+Print Assumptions C09_no_new_transfer_refuted.
+
+Theorem C09_unstarted_reported : forall (fl r : N) (s : ep), in_sess s = true ->
+  let s' := fst (handle_msg (MSessTerm fl r) s) in
+  pend_start s' = []
+  /\ exists t1 t2, trace s' = trace s ++ t1
+        ++ map (fun it => ESig SigSendFinished [PStrNum (fst it); PInt 0; PStr RES_TERMINATING]) (pend_start s)
+        ++ t2.
+Proof. exact unstarted_reported. Qed.
+Print Assumptions C09_unstarted_reported.
+
 Theorem C09_closed_is_final : forall (s : ep) (o : op), closed s = true ->
   step s o = match o with OAdvance dt => s <| now := now s + dt |> | _ => s end.
 Proof. exact step_closed. Qed.
 Print Assumptions C09_closed_is_final.
 
-(* Non-vacuity: a reachable closed state. *)
+(* Non-vacuity: a reachable closed state; a reachable state in session with a
+   queued transfer that handles a SESS_TERM. *)
 Example C09_example_closed :
   closed (run (mkCfg false [100] 30 60 1000 500 None) [OStart; OClose]) = true.
 Proof. reflexivity. Qed.
+
+Example C09_example_unstarted :
+  let s := run (mkCfg false [100] 30 60 1000 500 None)
+               [OStart; ORx (encode_frame (FContact (mkContact MAGIC 4 0)));
+                ORx (encode_frame (FMsg (MSessInit 30 100 1000 [100] []))); OSend [1;2;3]] in
+  in_sess s = true /\ length (pend_start s) = 1%nat.
+Proof. vm_compute. split; reflexivity. Qed.
